@@ -86,70 +86,6 @@ def AOp.u64 : AOp → UInt64 → UInt64 → UInt64
 def AOp.flt : AOp → Float → Float → Float
   | .add, a, b => a + b | .sub, a, b => a - b | .mul, a, b => a * b | .div, a, b => a / b
 
-/-- The nine-way dispatch shared by `Add`, `Sub`, `Mul`, `Div` in math.go. -/
-def goDispatch (op : AOp) (a b : Val) : Out Val :=
-  let ak := a.kind; let bk := b.kind
-  if hasPrefix ak "int" then
-    if hasPrefix bk "int" then
-      match a.int?, b.int? with
-      | some x, some y => .ok (.i .int64 (op.i64 x y)) | _, _ => .panic
-    else if hasPrefix bk "uint" then
-      match a.int?, b.uint? with
-      | some x, some y => .ok (.i .int64 (op.i64 x y.toInt64)) | _, _ => .panic
-    else if hasPrefix bk "float" then
-      match a.int?, b.float? with
-      | some x, some y => .ok (.f .float64 (op.flt x.toFloat y)) | _, _ => .panic
-    else .err
-  else if hasPrefix ak "uint" then
-    if hasPrefix bk "int" then
-      match a.uint?, b.int? with
-      | some x, some y => .ok (.i .int64 (op.i64 x.toInt64 y)) | _, _ => .panic
-    else if hasPrefix bk "uint" then
-      match a.uint?, b.uint? with
-      | some x, some y => .ok (.u .uint64 (op.u64 x y)) | _, _ => .panic
-    else if hasPrefix bk "float" then
-      match a.uint?, b.float? with
-      | some x, some y => .ok (.f .float64 (op.flt x.toFloat y)) | _, _ => .panic
-    else .err
-  else if hasPrefix ak "float" then
-    if hasPrefix bk "int" then
-      match a.float?, b.int? with
-      | some x, some y => .ok (.f .float64 (op.flt x y.toFloat)) | _, _ => .panic
-    else if hasPrefix bk "uint" then
-      match a.float?, b.uint? with
-      | some x, some y => .ok (.f .float64 (op.flt x y.toFloat)) | _, _ => .panic
-    else if hasPrefix bk "float" then
-      match a.float?, b.float? with
-      | some x, some y => .ok (.f .float64 (op.flt x y)) | _, _ => .panic
-    else .err
-  else .err
-
-/-- The zero-divisor guards at the top of `Div`. `none`: fall through to the dispatch. -/
-def goDivGuard (b : Val) : Option (Out Val) :=
-  let bk := b.kind
-  let g1 : Option (Out Val) :=
-    if hasPrefix bk "int" then (match b.int? with | some y => if y == 0 then some .err else none | none => some .panic)
-    else none
-  match g1 with
-  | some r => some r
-  | none =>
-    let g2 : Option (Out Val) :=
-      if hasPrefix bk "uint" then (match b.uint? with | some y => if y == 0 then some .err else none | none => some .panic)
-      else none
-    match g2 with
-    | some r => some r
-    | none =>
-      if hasPrefix bk "float" then (match b.float? with | some y => if y == 0.0 then some .err else none | none => some .panic)
-      else none
-
-/-- core.Add / Sub / Mul / Div. -/
-def goArith (op : AOp) (a b : Val) : Out Val :=
-  match op with
-  | .add =>
-    if a.kind == .string && b.kind == .string then .ok (.s (a.str ++ b.str)) else goDispatch .add a b
-  | .div => match goDivGuard b with | some r => r | none => goDispatch .div a b
-  | o => goDispatch o a b
-
 /-! ### Reference semantics (C01) -/
 
 inductive NumClass | sint (v : Int64) | uint (v : UInt64) | flt (v : Float)
